@@ -4549,6 +4549,15 @@ class Segment(TimedObject):
         self.info = info
 
 
+def _set_leap_type(info, leap_type):
+    # non-public
+    """Mark a segment as start or end of a leap; a segment can be both (it
+    begins at a segno and ends at a to-coda mark, say)."""
+    if info["type"] not in ("default", leap_type):
+        leap_type = "leap_start_end"
+    info["type"] = leap_type
+
+
 def add_segments(part, force_new=False):
     """
     Add segment objects to a part based on repetition and capo/fine/coda/segno directions.
@@ -4700,7 +4709,7 @@ def add_segments(part, force_new=False):
             if boundary_type == "coda":
                 # if a coda symbol is passed just continue
                 segment_info[ss]["to"].append(segment_info[se]["ID"])
-                segment_info[se]["type"] = "leap_end"
+                _set_leap_type(segment_info[se], "leap_end")
                 segment_info[se]["info"].append("Coda")
 
             if boundary_type == "tocoda":
@@ -4710,13 +4719,13 @@ def add_segments(part, force_new=False):
                 segment_info[ss]["to"].append(
                     "Navigation2_" + segment_info[coda_time]["ID"]
                 )
-                segment_info[ss]["type"] = "leap_start"
+                _set_leap_type(segment_info[ss], "leap_start")
                 segment_info[ss]["info"].append("al coda")
 
             if boundary_type == "segno":
                 # if a segno symbol is passed just continue
                 segment_info[ss]["to"].append(segment_info[se]["ID"])
-                segment_info[se]["type"] = "leap_end"
+                _set_leap_type(segment_info[se], "leap_end")
                 segment_info[se]["info"].append("segno")
 
             if boundary_type == "dalsegno":
@@ -4727,7 +4736,7 @@ def add_segments(part, force_new=False):
                     "Navigation1_" + segment_info[segno_time]["ID"]
                 )
                 segment_info[ss]["to"].append("Navigation2_" + segment_info[se]["ID"])
-                segment_info[ss]["type"] = "leap_start"
+                _set_leap_type(segment_info[ss], "leap_start")
                 segment_info[ss]["info"].append("dal segno")
 
             if boundary_type == "dacapo":
@@ -4737,7 +4746,7 @@ def add_segments(part, force_new=False):
                     "Navigation1_" + segment_info[part.first_point.t]["ID"]
                 )
                 segment_info[ss]["to"].append("Navigation2_" + segment_info[se]["ID"])
-                segment_info[ss]["type"] = "leap_start"
+                _set_leap_type(segment_info[ss], "leap_start")
                 segment_info[ss]["info"].append("da capo")
 
             if boundary_type == "fine":
@@ -4754,7 +4763,7 @@ def add_segments(part, force_new=False):
 
             # first segments is always a leap destination (da capo)
             if ss == 0:
-                segment_info[ss]["type"] = "leap_end"
+                _set_leap_type(segment_info[ss], "leap_end")
 
     # clean up and ORDER all the jump destination information
     for start_time in boundary_times[:-1]:
@@ -4976,8 +4985,9 @@ class Path:
         new_path.path.append(destination)
 
         if (
-            new_path.segments[destination].type == "leap_end"
-            and new_path.segments[new_path.path[-2]].type == "leap_start"
+            new_path.segments[destination].type in ("leap_end", "leap_start_end")
+            and new_path.segments[new_path.path[-2]].type
+            in ("leap_start", "leap_start_end")
         ):
             if not new_path.jumped:
                 new_path.jumped = True
